@@ -152,7 +152,7 @@ impl Plan {
             faults: vec![],
             shortread: 0,
             dirseed: 0,
-            maxevents: 4000,
+            maxevents: 100000,
             aslr: false,
         }
     }
